@@ -83,14 +83,30 @@ fn exec_cfg<C: Ws>(t: &GarbageTrace, ctx: &mut Ctx) -> Result<(), Violation> {
         ($d:expr, $allowed:expr, $what:expr, $fixed_p:expr) => {{
             let mut d = $d;
             let fixed_p: Option<u8> = $fixed_p;
+            // results already obtained through the batch iterator `decode_iid_symbols`
+            let mut ahead: std::collections::VecDeque<DecRes> = Default::default();
             for (i, mi) in t.decodes.iter().enumerate() {
                 ctx.op = i;
-                let Some(Some(b)) = built.get(*mi) else { ctx.stats.hit("skipped-op"); continue };
-                if !b.can_decode() { ctx.stats.hit("skipped-op"); continue }
+                let Some(Some(b)) = built.get(*mi) else { ctx.stats.hit("skipped-op"); ahead.clear(); continue };
+                if !b.can_decode() { ctx.stats.hit("skipped-op"); ahead.clear(); continue }
                 if let Some(p) = fixed_p { if b.p != p { ctx.stats.hit("skipped-op"); continue } }
-                let r = match fixed_p {
+                if ahead.is_empty() && i % 3 == 1 {
+                    // a run of decodes with one and the same model: through the batch iterator,
+                    // drained past errors (it must end after exactly that many items)
+                    let mut r = 1;
+                    while r < 5 && i + r < t.decodes.len() && t.decodes[i + r] == *mi { r += 1; }
+                    if r >= 2 {
+                        let ms: Vec<&Built> = (0..r).map(|_| b).collect();
+                        ctx.stats.hit("op-dec-batch-iid");
+                        ahead = <C::W as WordOps>::dec_batch(&mut d, crate::dynops::DecForm::Iid, &ms, None).into();
+                        if ahead.len() != r {
+                            viol!(ctx, "batch-iterator-shape", "{}: decode_iid_symbols({}) -> {:?}", $what, r, ahead);
+                        }
+                    }
+                }
+                let r = match ahead.pop_front() {
+                    Some(r) => r,
                     None => <C::W as WordOps>::dec(&mut d, b),
-                    Some(_) => unreachable!(),
                 };
                 ctx.stats.hit("op-dec");
                 match r {
